@@ -22,6 +22,7 @@ func checkC05(c *Ctx, r *Report) {
 	checkFormatDecodeFold(c, r)
 	checkVersionDecodeFold(c, r)
 	checkBothCopies(c, r)
+	checkDMGenerators(c, r) // the Data Matrix encoder's own generator polynomials: a symbol written with a wrong one cannot be corrected at all (also C08)
 	checkQRInfoReadPositions(c, r)
 	checkQRFunctionPattern(c, r) // which modules carry codewords: a misplaced function-pattern rectangle feeds wrong bits into the blocks
 	checkRSFullParity(c, r)
@@ -72,28 +73,51 @@ func checkBCHTolerance(c *Ctx, r *Report) {
 		}
 		var k int64 = -1
 		n := 0
-		ast.Inspect(fd.Body, func(nd ast.Node) bool {
-			ifs, ok := nd.(*ast.IfStmt)
-			if !ok {
-				return true
+		// the acceptance test: an if statement (outside the table loop) that compares one variable with a constant
+		// and whose body is a single return - either the accepting return under `d <= k` or the refusing one
+		// (nil first result) under `k < d`; the condition is folded for d = 0..20
+		for _, st := range fd.Body.List {
+			ifs, ok := st.(*ast.IfStmt)
+			if !ok || ifs.Init != nil || ifs.Else != nil || len(ifs.Body.List) != 1 {
+				continue
 			}
-			be, ok := ast.Unparen(ifs.Cond).(*ast.BinaryExpr)
-			if !ok || (be.Op != token.LEQ && be.Op != token.LSS) {
-				return true
+			rs, isR := ifs.Body.List[0].(*ast.ReturnStmt)
+			be, isB := ast.Unparen(ifs.Cond).(*ast.BinaryExpr)
+			if !isR || !isB || len(rs.Results) == 0 {
+				continue
 			}
-			if v, isC := constInt(p, be.Y); isC {
-				if id, isI := be.X.(*ast.Ident); isI && id.Name != "" && len(ifs.Body.List) == 1 {
-					if _, isR := ifs.Body.List[0].(*ast.ReturnStmt); isR {
-						k = v
-						if be.Op == token.LSS {
-							k = v - 1
-						}
-						n++
-					}
+			var dObj types.Object
+			if _, isC := constInt(p, be.Y); isC {
+				dObj = identObj(p, be.X)
+			} else if _, isC := constInt(p, be.X); isC {
+				dObj = identObj(p, be.Y)
+			}
+			if dObj == nil {
+				continue
+			}
+			refuses := false
+			if id, isI := ast.Unparen(rs.Results[0]).(*ast.Ident); isI && id.Name == "nil" {
+				refuses = true
+			}
+			kk, mono := int64(-1), true
+			for d := int64(0); d <= 20; d++ {
+				v, err := c.rpfExpr(p, ifs.Cond, map[types.Object]*Val{dObj: vint(d)}, nil)
+				if err != nil || v.K != VBool {
+					mono = false
+					break
+				}
+				accepted := v.B != refuses
+				if accepted && d == kk+1 {
+					kk = d
+				} else if accepted {
+					mono = false
 				}
 			}
-			return true
-		})
+			if mono {
+				k = kk
+				n++
+			}
+		}
 		return k, c.pos(fd.Pos()), n == 1
 	}
 	if k, pos, ok := thresholdOf("qrcode/decoder", "doDecodeFormatInformation"); ok && len(fmtWords) == 32 {
@@ -293,8 +317,27 @@ func checkBothCopies(c *Ctx, r *Report) {
 				}
 			}
 		}
-		last, _ := fd.Body.List[len(fd.Body.List)-1].(*ast.ReturnStmt)
-		okErr := last != nil && blockReturnsError(p, []ast.Stmt{last}, nil)
+		// after the second attempt: an error exit at the top level, as the final return or as a guard clause
+		okErr := false
+		if okTwo {
+			second := enclosingStmt(fd.Body, calls[1])
+			after := false
+			for _, st := range fd.Body.List {
+				if st == second {
+					after = true
+					continue
+				}
+				if !after {
+					continue
+				}
+				switch x := st.(type) {
+				case *ast.ReturnStmt:
+					okErr = okErr || blockReturnsError(p, []ast.Stmt{x}, nil)
+				case *ast.IfStmt:
+					okErr = okErr || (x.Else == nil && blockReturnsError(p, x.Body.List, nil))
+				}
+			}
+		}
 		// dimension agreement in both acceptance tests
 		nDim := 0
 		ast.Inspect(fd.Body, func(nd ast.Node) bool {
